@@ -354,17 +354,17 @@ type World struct {
 	metaKeyVer int
 	healthy    bool
 
-	healed      bool
-	Fired       map[string]int
-	Probes      map[string]int
-	NoOps       int
-	SimStart    time.Time
-	SimEnd      time.Time
-	uuidSrc     *uuidReader
-	Violations  []ViolationRec
-	constructed bool
+	healed       bool
+	Fired        map[string]int
+	Probes       map[string]int
+	NoOps        int
+	SimStart     time.Time
+	SimEnd       time.Time
+	uuidSrc      *uuidReader
+	Violations   []ViolationRec
+	constructed  bool
 	ConstructErr string
-	IDPModel    *IDPModel
+	IDPModel     *IDPModel
 }
 
 func (w *World) fire(kind string) {
@@ -582,13 +582,27 @@ func (w *World) run() {
 		w.step(&w.plan.Steps[i])
 	}
 	w.drain()
+	w.finalizeDone()
 	if w.plan.Recovery {
 		w.heal()
 		w.recoveryPhase()
 		w.drain()
 	}
 	w.SimEnd = time.Now()
+	w.finalizeDone()
+}
+
+// finalizeDone decodes the reply of every task that has finished since the last call (controller only).
+func (w *World) finalizeDone() {
+	w.mu.Lock()
+	var todo []*Task
 	for _, t := range w.tasks {
+		if t.state == tsDone && t.Reply == nil {
+			todo = append(todo, t)
+		}
+	}
+	w.mu.Unlock()
+	for _, t := range todo {
 		w.finalizeTask(t)
 	}
 }
@@ -645,6 +659,7 @@ func (w *World) heal() {
 }
 
 func (w *World) step(s *Step) {
+	defer w.finalizeDone()
 	switch s.K {
 	case "send":
 		if s.Msg == nil {
@@ -659,6 +674,18 @@ func (w *World) step(s *Step) {
 			return
 		}
 		t := ps[mod(s.Pick, len(ps))]
+		if s.ByID {
+			t = nil
+			for _, x := range ps {
+				if x.ID == s.Pick {
+					t = x
+				}
+			}
+			if t == nil {
+				w.noop("resume: task not parked")
+				return
+			}
+		}
 		w.resumeTask(t, s.Fault)
 		synctest.Wait()
 	case "finish":
@@ -668,6 +695,18 @@ func (w *World) step(s *Step) {
 			return
 		}
 		t := ps[mod(s.Pick, len(ps))]
+		if s.ByID {
+			t = nil
+			for _, x := range ps {
+				if x.ID == s.Pick {
+					t = x
+				}
+			}
+			if t == nil {
+				w.noop("finish: task not parked")
+				return
+			}
+		}
 		for guard := 0; guard < 1000; guard++ {
 			w.mu.Lock()
 			st := t.state
